@@ -1,12 +1,14 @@
 import Varlink
 import Driver.Proto
 import Driver.Cmds
+import Driver.CmdsIdl
+import Driver.CmdsLife
 import Driver.CmdsGen
 import Driver.CmdsMisc
 open Driver
 
 /-- all command tables (one per `Driver/Cmds*.lean`) -/
-def allCommands : List (String × P String) := Driver.table ++ Driver.Misc.table ++ Driver.Gen.table
+def allCommands : List (String × P String) := Driver.table ++ Driver.IdlCmd.table ++ Driver.Misc.table ++ Driver.Gen.table ++ Driver.Life.table
 
 def runCmd : P String := do
   let c ← tok
